@@ -50,6 +50,10 @@ def split_top(s, sep=','):
     return out
 
 
+import functools
+
+
+@functools.lru_cache(maxsize=None)
 def strip_generics(p):
     """remove every <...> group (bracket aware, '->' and '=>' are not brackets) that follows '::'
     (turbofish) or an identifier; leading '<T as Trait>' qualified-self groups are kept."""
